@@ -735,7 +735,7 @@ def r035(P, rep):
                 if e[1] != 'hashmap_get2':
                     continue
                 kl = _loc_len(e[2][1:3])
-                if kl is None and not (len(e[2]) >= 3 and isinstance(e[2][1], Sym) and e[2][1].name == 'tok.loc' and isinstance(e[2][2], int)):
+                if kl is None:
                     rep.undecided('R03.5', 'parse.c:%s:looks-up-whole-identifier' % fn, 'the key handed to hashmap_get2 (%r, %r) is not recognisably the spelling of the identifier token' % tuple(e[2][1:3]), where=where)
                     continue
                 rep.ob('R03.5', 'parse.c:%s:looks-up-whole-identifier' % fn, kl == ('tok', 0),
@@ -780,7 +780,7 @@ def r035(P, rep):
             for e in puts:
                 if e[1] == 'hashmap_put2' and fn == 'push_tag_scope':
                     kl = _loc_len(e[2][1:3])
-                    if kl is None and not (len(e[2]) >= 3 and isinstance(e[2][1], Sym) and e[2][1].name == 'tok.loc' and isinstance(e[2][2], int)):
+                    if kl is None:
                         rep.undecided('R03.5', 'parse.c:%s:enters-whole-identifier' % fn, 'the key handed to hashmap_put2 (%r, %r) is not recognisably the spelling of the tag token' % tuple(e[2][1:3]), where=where)
                         continue
                     rep.ob('R03.5', 'parse.c:%s:enters-whole-identifier' % fn, kl == ('tok', 0),
@@ -1039,11 +1039,18 @@ def _plain_constructors(pu):
     return plain
 
 
-def lowering_paths(P, pu, fname, plain, max_paths=3000):
-    """explore one lowering: plain constructors are interpreted (so the built tree exists), every other callee is opaque and, when it returns a Node *, is
-    taken to link each Node argument it is given once into its result. Yields (ctx, result, consumed: id(result Obj) -> [Node args], it)"""
+_LOWERING_MEMO = {}
+
+
+def lowering_paths(P, pu, fname, plain, max_paths=3000, inline=()):
+    """explore one lowering: plain constructors (and the helpers named in `inline`) are interpreted (so the built tree exists), every other callee is opaque and,
+    when it returns a Node *, is taken to link each Node argument it is given once into its result. Yields (ctx, result, consumed: id(result Obj) -> [Node args], it);
+    ctx.tok0 = the first Token * argument"""
     from ..lib_parse import TokenModel
     from ..interp import _Ref, VarPlace
+    mkey = (id(P), id(pu), fname, tuple(sorted(plain)), tuple(sorted(inline)), max_paths)
+    if mkey in _LOWERING_MEMO:
+        return _LOWERING_MEMO[mkey][1:]
     fd = pu.fn(fname)
     called = set()
     todo = [fname]
@@ -1053,21 +1060,24 @@ def lowering_paths(P, pu, fname, plain, max_paths=3000):
             n = c.callee()
             if n and n not in called:
                 called.add(n)
-                if n in plain:
+                if (n in plain or n in inline) and n in pu.functions:
                     todo.append(n)
-    opq = sorted(c for c in called if c not in plain and c not in ('equal', 'consume', 'skip', 'calloc') and c != 'error' and not c.startswith('error_'))
+    opq = sorted(c for c in called if c not in plain and (c not in inline or c == fname) and c not in ('equal', 'consume', 'skip', 'calloc') and c != 'error' and not c.startswith('error_'))
     tm = TokenModel(P, pu, [fname], extra_opaque=opq, globals_={'scope': lambda ctx: Obj('Scope', lazy=True, label='scope')}, loop_limit=1, forever_limit=3)
     it = tm.interp()
     ps = pu.params(fname)
 
     def mk(ctx):
         a = []
+        ctx.tok0 = None
         for q in ps:
             t = (q.type or '').replace(' ', '')
             if t == 'Token**':
                 a.append(_Ref(VarPlace({'rest': None}, 'rest')))
             elif t == 'Token*':
                 a.append(tm.token(q.name or 'tok'))
+                if ctx.tok0 is None:
+                    ctx.tok0 = a[-1]
             elif t == 'Node*':
                 a.append(Obj('Node', lazy=True, label=q.name or 'node'))
             elif t in ('int', 'long', 'bool'):
@@ -1088,6 +1098,7 @@ def lowering_paths(P, pu, fname, plain, max_paths=3000):
                 if r is not None:
                     consumed[id(r)] = [a for a in (_node_obj(it, x) for x in (e[2] or [])) if a is not None]
         out.append((ctx, o[1], consumed))
+    _LOWERING_MEMO[mkey] = (P, it, out)      # (P kept alive so that its id stays unique)
     return it, out
 
 
@@ -1236,11 +1247,13 @@ def _spelling_fn(P, pu, f, cache):
 
 
 def _loc_len(args):
-    """strndup(T->loc, T->len + c) -> (label of T, c); None when the arguments are anything else"""
+    """strndup(T->loc, T->len + c) -> (label of T, c); strndup(T->loc, n) -> (label of T, ('first', n)); None when the arguments are anything else"""
     from ..interp import Lin
     if len(args) < 2 or not isinstance(args[0], Sym) or not args[0].name.endswith('.loc'):
         return None
     t = args[0].name[:-len('.loc')]
+    if isinstance(args[1], int) and not isinstance(args[1], bool):
+        return (t, ('first', args[1]))          # a fixed number of characters, whatever the token's length
     l = Lin.of(args[1])
     if isinstance(l, int) or l is None:
         return None
@@ -1248,46 +1261,6 @@ def _loc_len(args):
     if len(terms) != 1 or terms[0][0] != 1 or not isinstance(terms[0][1], Sym) or terms[0][1].name != t + '.len':
         return None
     return (t, l.c)
-
-
-def _creator_paths(P, pu, fname, plain, inline):
-    """explore one function that links nodes into gotos/labels: plain constructors and the list helpers `inline` are interpreted, every other callee is opaque"""
-    from ..lib_parse import TokenModel
-    from ..interp import _Ref, VarPlace
-    called = set()
-    todo = [fname]
-    while todo:
-        g = todo.pop()
-        for c in pu.fn(g).find('CallExpr'):
-            n = c.callee()
-            if n and n not in called:
-                called.add(n)
-                if (n in plain or n in inline) and n in pu.functions:
-                    todo.append(n)
-    opq = sorted(c for c in called if c not in plain and (c not in inline or c == fname) and c not in ('equal', 'consume', 'skip', 'calloc') and c != 'error' and not c.startswith('error_'))
-    tm = TokenModel(P, pu, [fname], extra_opaque=opq, globals_={'scope': lambda ctx: Obj('Scope', lazy=True, label='scope')}, loop_limit=1, forever_limit=3)
-    it = tm.interp()
-    ps = pu.params(fname)
-
-    def mk(ctx):
-        a = []
-        ctx.tok0 = None
-        for q in ps:
-            t = (q.type or '').replace(' ', '')
-            if t == 'Token**':
-                a.append(_Ref(VarPlace({'rest': None}, 'rest')))
-            elif t == 'Token*':
-                a.append(tm.token(q.name or 'tok'))
-                if ctx.tok0 is None:
-                    ctx.tok0 = a[-1]
-            elif t == 'Node*':
-                a.append(Obj('Node', lazy=True, label=q.name or 'node'))
-            elif t in ('int', 'long', 'bool'):
-                a.append(Sym(q.name or 'n', t))
-            else:
-                a.append(it.lazy_value(q.type, q.name or 'arg'))
-        return a
-    return it, [(ctx, o) for ctx, o in it.explore(fname, mk, max_paths=3000) if o[0] == 'ret']
 
 
 def _label_creators(P, pu, rep, rule, resolver):
@@ -1306,11 +1279,11 @@ def _label_creators(P, pu, rep, rule, resolver):
     for fname in sorted(todo):
         where = 'parse.c:%d' % pu.fn(fname).line
         try:
-            it, paths = _creator_paths(P, pu, fname, plain, helpers)
+            it, paths = lowering_paths(P, pu, fname, plain, inline=helpers)
         except AnalysisBroken as e:
             rep.undecided(rule, 'parse.c:%s:label-bookkeeping' % fname, 'the function is not interpretable: %s' % e, where=where)
             continue
-        for ctx, o in paths:
+        for ctx, _root, _consumed in paths:
             it.ctx = ctx
             for G in LABEL_LISTS:
                 v = ctx.globals.get(G)
@@ -1350,8 +1323,9 @@ def _label_creators(P, pu, rep, rule, resolver):
                     rep.ob(rule, key + ':name-is-whole-identifier', good,
                            '%s() names a %s node after %s: a label name is the whole spelling of the identifier of the construct (`%s`), otherwise two different labels get the same name '
                            'or a goto does not find its label'
-                           % (fname, kind, ('the first %d characters short of the spelling of token `%s`' % (-src[1], src[0])) if src[1] < 0 else
-                              ('%d characters more than the spelling of token `%s`' % (src[1], src[0])) if src[1] > 0 else 'token `%s`' % src[0], ident),
+                           % (fname, kind, ('the first %d characters of token `%s`' % (src[1][1], src[0])) if isinstance(src[1], tuple) else
+                              ('the spelling of token `%s` without its last %d character(s)' % (src[0], -src[1])) if src[1] < 0 else
+                              ('%d character(s) more than the spelling of token `%s`' % (src[1], src[0])) if src[1] > 0 else 'token `%s`' % src[0], ident),
                            where=where, facts={'path': ctx.trail[-6:]})
                     if not good:
                         continue
